@@ -1,10 +1,10 @@
 """C14 - Deferred-returning tests under AsynchronousDeferredRunTest(ForBrokenTwisted) on the virtual-time reactor.
 
-Input : [timeout, [stop instant, ...], broken, suppress, store, nObs, setUp, body, tearDown]
-  main stage = [[cleanup stage, ...], stage]     (the cleanups it registers at its start, in order)
-  stage      = [[side, ...], beh]
+Input : [timeout, [stop instant, ...], broken, suppress, store, nObs, setUp, body, tearDown] (+ ['real'] = on the real reactor)
+  stage      = [[cleanup stage, ...], [side, ...], beh]    (the cleanups it registers at its start, in order; any depth)
   side       = ['junk', d] | 'logerr' | 'dropfailed' | 'flush' | 'expect'
-  beh        = 'ret' | ['raise', k] | ['fire', d] | ['faild', d, k] | 'never'          k = err | fail | skip
+  beh        = 'ret' | ['raise', k] | ['fire', d] | ['faild', d, k] | 'never'
+  k          = err | fail | skip | ki (KeyboardInterrupt) | exit (SystemExit)
 Trace : [events, stopRequested, raised, [[name, time, observers], ...], [live, ...], leftover, pending, obsRestored, realStops, finalTime]
 (see TTV/Drv/C14.lean).  The interrupts are `reactor.stop()` calls scheduled before `case.run(result)`.
 """
@@ -55,38 +55,57 @@ class C14(Prop):
     id = 'C14'
     budgets = {'quick': 8000, 'thorough': 150000}
     time_limit = {'quick': 40, 'thorough': 600}
-    rule = ('test programs setUp / test / tearDown, each registering 0-2 cleanups, every stage with 0-2 side effects (leave a delayed call, '
-            'log an error, drop a failed Deferred, flush_logged_errors, failing expectThat) and a behaviour (return, raise error/failure/skip, '
-            'Deferred firing or failing after 0-4, never); timeout 0-9 and 0-2 reactor.stop() requests at instants 0-9 so that stages finishing '
-            'exactly at the timeout / at an interrupt are frequent; both runner variants, suppress_twisted_logging and store_twisted_logs '
-            'on/off, 0-2 pre-installed log observers; 60% of the programs are drawn "mostly clean". thorough adds all programs over 7 '
-            'behaviours per main stage x (no cleanup | one cleanup with 7 behaviours) x 3 timeouts. non-trivial = at least one stage returns '
-            'a Deferred or has a side effect; distinct = distinct input S-expression')
+    rule = ('test programs setUp / test / tearDown, each registering 0-2 cleanups which themselves register cleanups (nesting depth up to 3), '
+            'every stage with 0-2 side effects (leave a delayed call, log an error, drop a failed Deferred, flush_logged_errors, failing '
+            'expectThat) and a behaviour (return, raise error/failure/skip/KeyboardInterrupt/SystemExit, Deferred firing or failing with one '
+            'of these after 0-4, never); timeout 0-9 and 0-2 reactor.stop() requests at instants 0-9 so that stages finishing exactly at the '
+            'timeout / at an interrupt are frequent; both runner variants, suppress_twisted_logging and store_twisted_logs on/off, 0-2 '
+            'pre-installed log observers; 63% of the programs are drawn "mostly clean" (half of those with exactly one flaw), 10% are '
+            'zero-delay hop chains (several Deferreds firing at one instant in successive reactor iterations, with the timeout and/or a stop '
+            'request at that instant, 60% broken-Twisted variant). thorough adds all programs over 7 behaviours per main stage x (no cleanup '
+            '| one cleanup with 7 behaviours) x 3 timeouts, 5^5 x 2 programs with a cleanup registered by a cleanup and unclaimed '
+            'exceptions, and scenarios on the REAL Twisted reactor (feature reactor:real; five of them also in quick). non-trivial = at '
+            'least one stage returns a Deferred or has a side effect; distinct = distinct input S-expression')
     assumptions = [
         'PARTIAL w.r.t. the Twisted runtime: Deferred callback chaining, inlineCallbacks, maybeDeferred, the log publisher / observers and '
         'DebugInfo (garbage collection of failed Deferreds) are modelled in TTV/Model/AsyncRun.lean, not verified; the theorems are about the '
         'runner\'s staging and bookkeeping logic',
-        'the reactor is harness/vreactor.py (twisted Clock + run/crash/stop/iterate), shared model TTV/Model/Reactor.lean; no real reactor',
+        'the reactor is harness/vreactor.py (twisted Clock + run/crash/stop/iterate with the iteration semantics of '
+        'ReactorBase.runUntilCurrent: a call scheduled during an iteration waits for the next one), shared model TTV/Model/Reactor.lean',
+        'REAL reactor: 11 smoke scenarios (passing async test, failing Deferred, timeout, unclean reactor, logged error, async cleanups '
+        'LIFO, broken-Twisted variant, interrupt, nested cleanups, KeyboardInterrupt in the test, dropped failed Deferred) run on '
+        'twisted.internet.reactor with 40 ms per time unit and distinct instants at least 2 units apart; a stage is reported at the '
+        'nominal instant of the delayed call that started it, a run in which some call was more than 0.9 unit late is repeated with a '
+        'doubled unit (at most 3 times); the whole trace is then compared with the model exactly as for the virtual reactor (5 scenarios '
+        'in quick, all in thorough); everything else runs on the virtual-time reactor only',
         'CPython reference counting: a dropped failed Deferred is collected (and its DebugInfo recorded) at once',
-        'exceptions outside Exception (KeyboardInterrupt in a stage), nested cleanups registered by cleanups, expected failures are not generated',
+        'of several cleanup exceptions _run_cleanups keeps the last only (modelled as is); expected failures are not generated',
     ]
     manifest = {
-        'text': 'PARTIAL (runner logic proved, Twisted runtime modelled). Theorems for all test programs (setUp / test / tearDown each '
-                'registering any cleanups; every stage with any side effects - leftover delayed call, logged error, dropped failed Deferred, '
-                'flush, failed expectation - and returning / raising / returning a Deferred that fires or fails after any delay / never), all '
-                'timeouts, all sets of interrupt instants, both runner variants, logging suppression and capture on/off: on the discrete-event '
-                'model of AsynchronousDeferredRunTest over the shared virtual-time reactor/Spinner model exactly one outcome is reported between '
-                'startTest and stopTest; the stages that run are a prefix of the path setUp,[test,tearDown],cleanups-LIFO and each starts only '
-                'after its predecessor\'s Deferred fired; the outcome is success iff the whole path ran, its last Deferred fired strictly before '
-                'the timeout and not after a stop request, every stage completed cleanly, no logged error was left unflushed, no failed Deferred '
-                'dropped, no expectation failed and nothing was left scheduled; otherwise-not-in-time gives an error and the result is asked to '
-                'stop exactly for an interrupt; afterwards no delayed call is pending and the log observers are the original ones in order; the '
-                'reactor loop always ends by a crash within the model\'s fuel. Tied to the real runner by a differential check on a virtual-time '
-                'reactor (random programs incl. one-flaw programs and ties at the timeout / interrupt instant, exhaustive small grid).',
+        'text': 'PARTIAL (runner logic proved, Twisted runtime modelled). Theorems for all test programs (setUp / test / tearDown and every '
+                'cleanup registering any cleanups, to any depth; every stage with any side effects - leftover delayed call, logged error, '
+                'dropped failed Deferred, flush, failed expectation - and returning / raising / returning a Deferred that fires or fails after '
+                'any delay / never, the exception being an error, a failure, a skip or KeyboardInterrupt/SystemExit), all timeouts, all sets '
+                'of interrupt instants, both runner variants, logging suppression and capture on/off: on the discrete-event model of '
+                'AsynchronousDeferredRunTest over the shared reactor/Spinner model (reactor iterations as in runUntilCurrent; the result of '
+                'Spinner.run determined before _clean\'s shake-out iterations) exactly one outcome is reported between startTest and stopTest; '
+                'the stages that run are a prefix of the path setUp,[test,tearDown],cleanups-LIFO (cleanups registered by a cleanup right '
+                'after it) and each starts only after its predecessor\'s Deferred fired; the outcome is success iff the whole path ran under '
+                'the running reactor, its last Deferred fired strictly before the timeout, no stop was requested, every stage completed '
+                'cleanly, no logged error was left unflushed, no failed Deferred dropped, no expectation failed and nothing was left '
+                'scheduled; not-in-time gives an error; the result is asked to stop only for an interrupt before the timeout and always '
+                'when one came while the chain was not over; run() re-raises only KeyboardInterrupt/SystemExit, after reporting an error, '
+                'always when setUp/test/tearDown raised one and only if some stage that ran raised one; afterwards no delayed call is '
+                'pending and the log observers are the original ones in order; the reactor loop always ends by a crash within the '
+                'model\'s fuel. Tied to the real runner by a differential check on a virtual-time reactor (random programs incl. one-flaw '
+                'programs, ties at the timeout / interrupt instant, zero-delay hop chains across reactor iterations, exhaustive small '
+                'grids) and by 11 smoke scenarios on the real Twisted reactor.',
         'note': 'partial w.r.t. the Twisted runtime: Deferred chaining, inlineCallbacks/maybeDeferred, the log publisher and observers, '
                 'DebugInfo/GC of failed Deferreds are modelled (TTV/Model/AsyncRun.lean), not verified; trusted: Lean kernel, the models '
-                'TTV/Model/Reactor.lean + AsyncRun.lean, the harness and harness/vreactor.py (no real reactor); KeyboardInterrupt in a stage, '
-                'cleanups registered by cleanups and expected failures are outside the generated domain',
+                'TTV/Model/Reactor.lean + AsyncRun.lean, the harness and harness/vreactor.py; real-reactor coverage = 11 scenarios '
+                '(feature reactor:real: 5 per quick run, 11 per thorough run), everything else on the virtual-time reactor; at the very '
+                'instant at which the chain is over, whether a simultaneous interrupt wins is decided by the reactor\'s call order '
+                '(covered by the correspondence, not by a readable theorem); expected failures are outside the generated domain',
         'technique': 'Lean 4 invariant proofs over a discrete-event model (sorted call queue with dynamic scheduling, fuelled reactor loop, '
                      'potential-function termination argument, chain invariant through suspensions), executable spec shared with a '
                      'differential correspondence check against the real code on a virtual-time reactor',
@@ -98,9 +117,20 @@ class C14(Prop):
         orig = list(pub._observers)
         for o in orig:
             pub.removeObserver(o)
-        markers = []
         try:
-            return self._run(inp, pub, markers)
+            scale = REAL_UNIT
+            for attempt in range(4):
+                info = {}
+                trace = self._run(inp, pub, [], scale, info)
+                if not info.get('disturbed'):
+                    return trace
+                # the real reactor ran a call late by most of a time unit (machine under load), so the nominal scenario was not
+                # realised: once more, with a longer unit
+                gc.collect(1)
+                for o in list(pub._observers):
+                    pub.removeObserver(o)
+                scale *= 2
+            return trace + [['real-reactor-disturbed', info['drift']]]
         except BaseException as e:
             if isinstance(e, KeyboardInterrupt) and not getattr(e, 'verif_generated', False):
                 raise
@@ -112,7 +142,7 @@ class C14(Prop):
             for o in orig:
                 pub.addObserver(o)
 
-    def _run(self, inp, pub, markers):
+    def _run(self, inp, pub, markers, scale, info):
         import testtools
         from testtools.matchers import Equals
         from twisted.internet import defer
@@ -123,24 +153,39 @@ class C14(Prop):
         T, stops, broken, suppress, store, n_obs, su, bo, td = inp[:9]
         real = len(inp) > 9 and inp[9] == 'real'
         if real:
-            # the REAL Twisted reactor; delays in units of REAL_UNIT seconds; observed times are snapped down to the nominal
-            # instants of the program (events are at least 2 units apart, lateness of up to 2 units is tolerated)
+            # the REAL Twisted reactor; delays in units of `scale` seconds.  Every delayed call carries its nominal instant (the nominal
+            # instant at which it was scheduled + its delay); the time reported for a stage is the nominal instant of the call that is
+            # running.  The nominal order is the real order as long as every call runs less than one unit late (distinct instants are
+            # at least 2 units apart in the scenarios); the lateness is measured, a disturbed run is repeated by run_impl.
             from twisted.internet import reactor as r
             if r.running or r.getDelayedCalls():
                 return ['real-reactor-not-clean']
-            scale = REAL_UNIT
-            instants = self._instants(inp)
             t0 = r.seconds()
+            clock = {'instant': 0, 'drift': 0.0}
 
             def now():
-                x = (r.seconds() - t0) / scale + 0.3
-                return max(i for i in instants if i <= x)
+                return clock['instant']
+
+            def later(delay, f, *args):
+                due = clock['instant'] + delay
+
+                def call():
+                    arrive(due)
+                    return f(*args)
+                return r.callLater(delay * scale, call)
+
+            def arrive(instant):
+                clock['drift'] = max(clock['drift'], (r.seconds() - t0) / scale - instant)
+                clock['instant'] = instant
         else:
             r = VirtualReactor()
             scale = 1
 
             def now():
                 return int(r.seconds())
+
+            def later(delay, f, *args):
+                return r.callLater(delay, f, *args)
         for i in range(n_obs):
             m = (lambda i: (lambda event: None))(i)
             markers.append(m)
@@ -176,7 +221,7 @@ class C14(Prop):
                 elif s == 'expect':
                     case.expectThat(1, Equals(2))
                 else:
-                    r.callLater(s[1] * scale, mine())
+                    later(s[1], mine())
             if beh == 'ret':
                 return None
             if beh == 'never':
@@ -185,12 +230,23 @@ class C14(Prop):
                 raise self._exc(case, beh[1], name)
             d = defer.Deferred()
             if beh[0] == 'fire':
-                r.callLater(beh[1] * scale, d.callback, None)
+                later(beh[1], d.callback, None)
             else:
-                r.callLater(beh[1] * scale, d.errback, self._exc(case, beh[2], name))
+                later(beh[1], d.errback, self._exc(case, beh[2], name))
             return d
 
         cls = AsynchronousDeferredRunTestForBrokenTwisted if broken else AsynchronousDeferredRunTest
+        if real:
+            class cls(cls):                     # only to learn the instant at which the Spinner's timeout call runs
+                def _make_spinner(self):
+                    sp = super()._make_spinner()
+                    timed_out = sp._timed_out
+
+                    def noting(*args, **kwargs):
+                        arrive(T)
+                        return timed_out(*args, **kwargs)
+                    sp._timed_out = noting
+                    return sp
 
         class T_(testtools.TestCase):
             run_tests_with = cls.make_factory(reactor=r, timeout=T * scale, suppress_twisted_logging=suppress,
@@ -210,7 +266,7 @@ class C14(Prop):
                     super().tearDown()
 
         for s in stops:
-            r.callLater(s * scale, mine(lambda: r.stop()))
+            later(s, mine(lambda: r.stop()))
         sink = Sink()
         raised = False
         try:
@@ -226,6 +282,9 @@ class C14(Prop):
         if real:
             for dc in r.getDelayedCalls():          # leave the process clean whatever happened
                 dc.cancel()
+            arrive(clock['instant'])                # the synchronous tail counts, too
+            info['drift'] = round(clock['drift'], 2)
+            info['disturbed'] = clock['drift'] > 0.9
         elif r.errors:
             trace.append(['reactor-errors'] + [type(e).__name__ for e in r.errors])
         return trace
@@ -242,24 +301,7 @@ class C14(Prop):
         e.verif_generated = True
         return e
 
-    def _instants(self, inp):
-        """the nominal instants at which something can happen in the program (closure of the delays under addition)"""
-        T, stops = inp[0], inp[1]
-        delays = set()
-        for st in self._stages(inp):
-            if isinstance(st[2], list) and st[2][0] in ('fire', 'faild'):
-                delays.add(st[2][1])
-            delays.update(s[1] for s in st[1] if isinstance(s, list))
-        horizon = T + max(delays | {0}) + max(stops + [0])
-        inst = {0, T} | set(stops)
-        grew = True
-        while grew:
-            new = {a + d for a in inst for d in delays if a + d <= horizon} - inst
-            grew = bool(new)
-            inst |= new
-        return sorted(inst)
-
-    # ----- scenarios on the real reactor (events at least 2 units apart)
+    # ----- scenarios on the real reactor (distinct instants at least 2 units apart)
     @staticmethod
     def _st(beh, sides=(), cleanups=()):
         return [list(cleanups), list(sides), beh]
@@ -328,8 +370,32 @@ class C14(Prop):
             for x in self.flat(c):
                 yield x
 
+    def gen_hops(self, rng):
+        """zero-delay hop chains: several Deferreds firing at the same instant, each scheduled by its predecessor's callback, hence run
+        by successive reactor iterations; a stop request / the timeout at that very instant ends reactor.run() in the middle of the
+        chain, the rest is run - and its result discarded - by the shake-out iterations of Spinner._clean"""
+        d = rng.choice([0, 1, 2, 3])
+
+        def hop():
+            return rng.choice([['fire', 0], ['fire', 0], ['fire', 0], ['faild', 0, rng.choice(EXC)], 'ret'])
+
+        def stage(beh, depth=0):
+            n = rng.choice([0, 0, 1, 2]) if depth < 2 else 0
+            sides = [['junk', 0]] if rng.random() < 0.2 else []
+            return [[stage(hop(), depth + 1) for _ in range(n)], sides, beh]
+
+        first = rng.randrange(3)
+        prog = [stage(['fire', d] if i == first else hop()) for i in range(3)]
+        if rng.random() < 0.25:
+            T, stops = d, rng.choice([[], [], [d]])
+        else:
+            T, stops = d + rng.choice([1, 2, 5]), rng.choice([[d], [d], [d], [d, d + 1], [d, d]])
+        return [T, stops, rng.random() < 0.6, rng.random() < 0.7, rng.random() < 0.7, rng.choice([0, 1])] + prog
+
     def gen(self, rng, tier):
         mode = rng.random()
+        if mode >= 0.9:
+            return self.gen_hops(rng)
         clean = mode < 0.7
         T = rng.choice([0, 1, 2, 3, 4, 5, 6, 7, 9])
         prog = [self.gen_stage(rng, clean, T) for _ in range(3)]
@@ -446,6 +512,8 @@ class C14(Prop):
         cleanups, sides, beh = st
         for j in range(len(cleanups)):
             yield [cleanups[:j] + cleanups[j + 1:], sides, beh]
+            if cleanups[j][0]:                                   # hoist the cleanups it registers
+                yield [cleanups[:j] + cleanups[j][0] + cleanups[j + 1:], sides, beh]
             for cand in self.shrink_stage(cleanups[j]):
                 yield [cleanups[:j] + [cand] + cleanups[j + 1:], sides, beh]
         for j in range(len(sides)):
@@ -454,6 +522,13 @@ class C14(Prop):
             yield [cleanups, sides, 'ret']
         if isinstance(beh, list) and beh[0] in ('fire', 'faild') and beh[1] > 0:
             yield [cleanups, sides, [beh[0], beh[1] - 1] + beh[2:]]
+        if isinstance(beh, list) and beh[0] == 'faild':
+            yield [cleanups, sides, ['raise', beh[2]]]
+            yield [cleanups, sides, ['fire', beh[1]]]
+        if isinstance(beh, list) and beh[-1] == 'exit':
+            yield [cleanups, sides, beh[:-1] + ['ki']]
+        if isinstance(beh, list) and beh[-1] in ('fail', 'skip'):
+            yield [cleanups, sides, beh[:-1] + ['err']]
 
 
 PROP = C14()
